@@ -669,6 +669,9 @@ func c18Listeners(t *testing.T, r *vres.Report, dir string) {
 		metricsPath            string
 		clash                  string // which two ports are the same ("" = none)
 		reqHeader, traceHeader string
+		// off: a section that is switched off ("metrics" / "admin"): what it says (a port that
+		// another listener uses) is no constraint, the file must load and the rest must work
+		off string
 	}
 	var files []file
 	for _, mp := range []string{"/metrics", "/health", "/", "metrics", "/metrics/", "/a b", "//metrics", "/m?x=1", "GET /metrics", "/metrics#x", "/%zz"} {
@@ -676,6 +679,9 @@ func c18Listeners(t *testing.T, r *vres.Report, dir string) {
 	}
 	for _, c := range []string{"proxy=metrics", "proxy=admin", "metrics=admin"} {
 		files = append(files, file{label: "ports:" + c, metricsPath: "/metrics", clash: c})
+	}
+	for _, c := range [][2]string{{"proxy=metrics", "metrics"}, {"proxy=admin", "admin"}, {"metrics=admin", "metrics"}, {"metrics=admin", "admin"}} {
+		files = append(files, file{label: "ports:" + c[0] + "(" + c[1] + " switched off)", metricsPath: "/metrics", clash: c[0], off: c[1]})
 	}
 	for _, h := range []string{"X-Request-ID", "X Request ID", "X-Request-ID:", "Request\tId", "\u00dcber-Id", "x"} {
 		files = append(files, file{label: "request_id.header=" + h, metricsPath: "/metrics", reqHeader: h}, file{label: "trace.header=" + h, metricsPath: "/metrics", traceHeader: h})
@@ -700,7 +706,7 @@ func c18Listeners(t *testing.T, r *vres.Report, dir string) {
 			case "metrics=admin":
 				ap = mp
 			}
-			y := fmt.Sprintf("server:\n  port: %d\nbackends:\n  - name: b1\n    address: %s\nmetrics:\n  enabled: true\n  port: %d\n  path: %q\nadmin_api:\n  enabled: true\n  port: %d\n", pp, be.URL(), mp, f.metricsPath, ap)
+			y := fmt.Sprintf("server:\n  port: %d\nbackends:\n  - name: b1\n    address: %s\nmetrics:\n  enabled: %v\n  port: %d\n  path: %q\nadmin_api:\n  enabled: %v\n  port: %d\n", pp, be.URL(), f.off != "metrics", mp, f.metricsPath, f.off != "admin", ap)
 			if f.reqHeader != "" || f.traceHeader != "" {
 				y += "logging:\n"
 				if f.reqHeader != "" {
@@ -714,6 +720,9 @@ func c18Listeners(t *testing.T, r *vres.Report, dir string) {
 			os.WriteFile(path, []byte(y), 0o644)
 			if _, err := config.LoadConfig(path); err != nil {
 				res[i] = verdict{outcome: "refused"}
+				if f.off != "" {
+					res[i] = verdict{"refused", "C18/valid-configuration-rejected/ports", fmt.Sprintf("%s: every documented constraint holds (the section that names the same port is switched off), but the file is refused: %v", f.label, err), y}
+				}
 				return
 			}
 			cmd := exec.Command(bin, "-config", path)
@@ -751,7 +760,18 @@ func c18Listeners(t *testing.T, r *vres.Report, dir string) {
 				"metrics": func() string { return get(mp, (&url.URL{Path: mt}).EscapedPath()) },
 				"admin":   func() string { return get(ap, "/v1/health") },
 			}
+			if f.off == "metrics" {
+				delete(want, "metrics")
+			}
+			if f.off == "admin" {
+				delete(want, "admin")
+			}
 			got := map[string]string{}
+			for _, k := range []string{"proxy", "metrics", "admin"} {
+				if _, asked := want[k]; !asked {
+					got[k] = "200" // switched off: nothing to be there
+				}
+			}
 			exited := ""
 			deadline := time.Now().Add(20 * time.Second)
 			for time.Now().Before(deadline) && exited == "" {
@@ -809,7 +829,7 @@ func c18Listeners(t *testing.T, r *vres.Report, dir string) {
 	}
 	r.AddScenario(vres.Scenario{Name: "listeners-and-header-names", Engine: "P", Evaluations: int64(len(files)), Distinct: int64(outs.N()), Outcomes: outs.N(),
 		Rule:  "one evaluation = one file with proxy, metrics server and Admin API enabled in front of a real backend, loaded with the real LoadConfig and, if accepted, started with the real binary: a proxied request must be answered 200, the metrics document served at the configured path and the Admin API health endpoint answer, or the process must exit non-zero without a panic trace; distinct = (menu, refused / works / start-up error / crashed / half) classes",
-		Bound: fmt.Sprintf("%d files: 11 metrics paths, 3 port clashes, 6 header names for each of the two ID headers", len(files)), Exhaustive: true,
+		Bound: fmt.Sprintf("%d files: 11 metrics paths, 3 port clashes (and 4 with one of the two sections switched off, which must load), 6 header names for each of the two ID headers", len(files)), Exhaustive: true,
 		Extra: map[string]interface{}{"wall_s": time.Since(start).Seconds()}})
 }
 
